@@ -205,10 +205,87 @@ _RANDOM_FAKES = {
 }
 
 
+# ---------------------------------------------------------------- numpy.random (legacy module functions and Generators)
+def _np_many(one, size):
+    if size is None or size == ():
+        return one()
+    n = int(np.prod(size))
+    return np.array([one() for _ in range(n)]).reshape(size)
+
+
+def _np_fakes():
+    def random_sample(size=None):
+        return _np_many(lambda: _cont("numpy.random.random", "uniform"), size)
+
+    def uniform(low=0.0, high=1.0, size=None):
+        return _np_many(lambda: _cont("numpy.random.uniform", "uniform", loc=low, scale=high - low), size)
+
+    def normal(loc=0.0, scale=1.0, size=None):
+        return _np_many(lambda: _cont("numpy.random.normal", "norm", loc=loc, scale=scale), size)
+
+    def standard_normal(size=None):
+        return _np_many(lambda: _cont("numpy.random.standard_normal", "norm"), size)
+
+    def exponential(scale=1.0, size=None):
+        return _np_many(lambda: _cont("numpy.random.exponential", "expon", scale=scale), size)
+
+    def laplace(loc=0.0, scale=1.0, size=None):
+        return _np_many(lambda: _cont("numpy.random.laplace", "laplace", loc=loc, scale=scale), size)
+
+    def beta(a, b, size=None):
+        return _np_many(lambda: _cont("numpy.random.beta", "beta", a, b), size)
+
+    def gamma(shape, scale=1.0, size=None):
+        return _np_many(lambda: _cont("numpy.random.gamma", "gamma", shape, scale=scale), size)
+
+    def binomial(n, p, size=None):
+        def one():
+            law = law_from_scipy(__import__("scipy.stats", fromlist=["binom"]).binom, (n, p), {})
+            u = _ask(law, "numpy.random.binomial")
+            return int(law.points[0][0] if u is None else law.quantile(u))
+        return _np_many(one, size)
+
+    def randint(low, high=None, size=None, dtype=int):
+        if high is None:
+            low, high = 0, low
+        return _np_many(lambda: f_randrange(low, high), size)
+
+    def choice(a, size=None, replace=True, p=None):
+        pop = list(range(a)) if isinstance(a, (int, np.integer)) else list(a)
+        return _np_many(lambda: f_choices(pop, weights=None if p is None else list(p), k=1)[0], size)
+
+    return {"random": random_sample, "random_sample": random_sample, "rand": lambda *shape: random_sample(shape or None),
+            "uniform": uniform, "normal": normal, "standard_normal": standard_normal, "randn": lambda *shape: standard_normal(shape or None),
+            "exponential": exponential, "laplace": laplace, "beta": beta, "gamma": gamma, "binomial": binomial,
+            "randint": randint, "choice": choice}
+
+
+class FakeGenerator:
+    """stands in for numpy.random.Generator / RandomState objects created by the code under test"""
+
+    def __init__(self, *a, **k):
+        for name, fn in _np_fakes().items():
+            setattr(self, name, fn)
+        self.integers = lambda low, high=None, size=None, **kw: _np_fakes()["randint"](low, high, size)
+
+
+def rng_fingerprint():
+    """hash of the state of the *real* generators: if it changes during a run, randomness was drawn past the seam"""
+    import hashlib
+    st = np.random.get_state()
+    h = hashlib.sha256(repr(_random.getstate()).encode() + st[1].tobytes() + str(st[2:]).encode())
+    return h.hexdigest()[:16]
+
+
 def install(seed=0):
     """Install the seam (idempotent) and seed the real generators."""
     global _installed
     if not _installed:
+        for name, fake in _np_fakes().items():
+            _orig["np." + name] = getattr(np.random, name)
+            setattr(np.random, name, fake)
+        _orig["np.default_rng"] = np.random.default_rng
+        np.random.default_rng = FakeGenerator
         for name, fake in _RANDOM_FAKES.items():
             _orig["random." + name] = getattr(_random, name)
             setattr(_random, name, fake)
@@ -224,6 +301,9 @@ def install(seed=0):
 def uninstall():
     global _installed
     if _installed:
+        for name in _np_fakes():
+            setattr(np.random, name, _orig["np." + name])
+        np.random.default_rng = _orig["np.default_rng"]
         for name in _RANDOM_FAKES:
             setattr(_random, name, _orig["random." + name])
         _di.rv_generic.rvs = _orig["rv_generic.rvs"]
